@@ -33,19 +33,24 @@ macro_rules! block_clone_case {
             let (t1, t2) = (r.iv_state(), r2.iv_state());
             // subject
             let (mut x1, mut x2, mut x3) = (h1, h2, h3);
-            let mut o = mk();
-            do_blocks!($dir, o, blocks_mut::<$mbs>(&mut x1));
-            let mut k = if $how == CLONE {
-                o.clone()
-            } else {
-                let mut k = mk();
-                let mut y1 = h1;
-                do_blocks!($dir, k, blocks_mut::<$mbs>(&mut y1));
-                k
-            };
             let ord: usize = kani::any();
             kani::assume(ord <= 1);
+            let mut s1 = [0u8; $ivlen];
+            let mut s2 = [0u8; $ivlen];
+            // (objects are created inside each branch of the order split: an object mutated in one
+            // branch would reach the other branch in a merged state)
             split_on!(ord, 0, 1, o_ => {
+                let mut o = mk();
+                x1 = h1;
+                do_blocks!($dir, o, blocks_mut::<$mbs>(&mut x1));
+                let mut k = if $how == CLONE {
+                    o.clone()
+                } else {
+                    let mut k = mk();
+                    let mut y1 = h1;
+                    do_blocks!($dir, k, blocks_mut::<$mbs>(&mut y1));
+                    k
+                };
                 if o_ == 0 {
                     do_blocks!($dir, o, blocks_mut::<$mbs>(&mut x2));
                     do_blocks!($dir, k, blocks_mut::<$mbs>(&mut x3));
@@ -53,6 +58,8 @@ macro_rules! block_clone_case {
                     do_blocks!($dir, k, blocks_mut::<$mbs>(&mut x3));
                     do_blocks!($dir, o, blocks_mut::<$mbs>(&mut x2));
                 }
+                s1.copy_from_slice(&o.iv_state());
+                s2.copy_from_slice(&k.iv_state());
             });
             let mut j = 0;
             while j < 2 * MB {
@@ -65,7 +72,6 @@ macro_rules! block_clone_case {
                 assert!(x3[j] == b3[j], "clone's output differs from a fresh replay");
                 j += 1;
             }
-            let (s1, s2) = (o.iv_state(), k.iv_state());
             let mut j = 0;
             while j < $ivlen {
                 assert!(s1[j] == t1[j] && s2[j] == t2[j], "state after interleaved use differs from a fresh replay");
@@ -97,20 +103,25 @@ macro_rules! bytes_clone_case {
             let mut r2 = $mk(key, &iv);
             r2.$call(&mut b1);
             r2.$call(&mut b3);
+            let (mut e1, mut e3) = ([0u8; 1], [0u8; 1]);
+            r.$call(&mut e1);
+            r2.$call(&mut e3);
             let (mut x1, mut x2, mut x3) = (h1, h2, h3);
-            let mut o = $mk(key, &iv);
-            o.$call(&mut x1);
-            let mut k = if $how == CLONE {
-                o.clone()
-            } else {
-                let mut k = $mk(key, &iv);
-                let mut y1 = h1;
-                k.$call(&mut y1);
-                k
-            };
             let ord: usize = kani::any();
             kani::assume(ord <= 1);
+            let (mut e2, mut e4) = ([0u8; 1], [0u8; 1]);
             split_on!(ord, 0, 1, o_ => {
+                let mut o = $mk(key, &iv);
+                x1 = h1;
+                o.$call(&mut x1);
+                let mut k = if $how == CLONE {
+                    o.clone()
+                } else {
+                    let mut k = $mk(key, &iv);
+                    let mut y1 = h1;
+                    k.$call(&mut y1);
+                    k
+                };
                 if o_ == 0 {
                     o.$call(&mut x2);
                     k.$call(&mut x3);
@@ -118,6 +129,11 @@ macro_rules! bytes_clone_case {
                     k.$call(&mut x3);
                     o.$call(&mut x2);
                 }
+                // one more byte from each: still in step with the fresh replays
+                e2 = [0u8; 1];
+                e4 = [0u8; 1];
+                o.$call(&mut e2);
+                k.$call(&mut e4);
             });
             let mut j = 0;
             while j < $n2 {
@@ -129,12 +145,6 @@ macro_rules! bytes_clone_case {
                 assert!(x3[j] == b3[j], "clone's output differs from a fresh replay");
                 j += 1;
             }
-            // one more byte from each: still in step with the fresh replays
-            let (mut e1, mut e2, mut e3, mut e4) = ([0u8; 1], [0u8; 1], [0u8; 1], [0u8; 1]);
-            r.$call(&mut e1);
-            o.$call(&mut e2);
-            r2.$call(&mut e3);
-            k.$call(&mut e4);
             assert!(e1[0] == e2[0] && e3[0] == e4[0], "state after interleaved use differs from a fresh replay");
             kani::cover!(ord == 0);
             kani::cover!(ord == 1);
